@@ -58,6 +58,7 @@ fn dispatch(w: &[&str]) -> String {
         "fwriteb" => ops::fwriteb(&w[1..]),
         "freadb" => ops::freadb(&w[1..]),
         "areadb" => ops::areadb(&w[1..]),
+        "areadm" => ops::areadm(&w[1..]),
         "awriteb" => ops::awriteb(&w[1..]),
         "awritef" => ops::awritef(&w[1..]),
         _ => None
